@@ -22,6 +22,25 @@ BUCKET = 'bkt'
 _ROLE_ORDER = ('request', 'submission', 'io')
 _RecordingSubscriber = None
 _patched_defaults = {}
+_cur = [None]          # the World of the running simulation
+
+
+def _install_bw_sleep_probe():
+    """Every wait a bandwidth-limited stream asks for, with the thread that
+    asked (harness-side wrapper around TimeUtils.sleep, installed once)."""
+    import s3transfer.bandwidth as bw
+    if getattr(bw.TimeUtils.sleep, '_sim_probe', False):
+        return
+    orig = bw.TimeUtils.sleep
+
+    def sleep(self, value):
+        w = _cur[0]
+        if w is not None and not w.sim.unwinding:
+            cur = w.sim.current
+            w.bw_sleeps.append((w.sim.stamp(), cur.role if cur is not None else None, value))
+        return orig(self, value)
+    sleep._sim_probe = True
+    bw.TimeUtils.sleep = sleep
 
 
 def pattern(tidx, n, salt=0):
@@ -89,6 +108,8 @@ class World:
         self.sem_audit = None
         self.lat_mode = self.knobs.get('latency', 'none')
         self.bw_events = []
+        self.bw_sleeps = []
+        self.multi = bool((scenario.get('knobs') or {}).get('sibling') == 'traffic')
         self.body_release = {}
 
     # ---- hooks called by stubs ---------------------------------------------
@@ -98,6 +119,8 @@ class World:
     def violation(self, prop, cls, msg, sig=None):
         if self.sim.unwinding:
             return        # library code run while an aborted run is unwound
+        if self.multi and prop in ('C10', 'C11', 'C12', 'C18'):
+            return        # per-manager limits: not judged when two managers transfer
         self.violations.append((prop, cls, msg, sig or {}))
 
     def latency(self, op, m):
@@ -470,7 +493,7 @@ class World:
             self.s3.objects[(BUCKET, t['key'])] = data
             d = spec['dst']
             if d == 'path':
-                t['path'] = '/d/down%d' % idx
+                t['path'] = spec.get('path_override') or '/d/down%d' % idx
                 prev = spec.get('prev')
                 t['prev'] = None
                 if prev is not None:
@@ -503,6 +526,8 @@ class World:
     def _submit(self, t):
         m = self.manager
         spec = t['spec']
+        if spec.get('mgr') and self.sibling is not None:
+            m = self.sibling
         ty = spec['type']
         if ty == 'skip':
             return None
@@ -564,7 +589,8 @@ class World:
         self._observe_tags()
         self.sibling = None
         if sc.get('knobs', {}).get('sibling'):
-            self.sibling = TransferManager(self.s3, TransferConfig_like(cfg), osutil)
+            # applications reuse one TransferConfig object for all their managers
+            self.sibling = TransferManager(self.s3, cfg, osutil)
         script = sc.get('driver') or self.default_script()
         use_with = any(a[0] in ('with_raise', 'use_with') for a in script)
         try:
@@ -908,6 +934,8 @@ class World:
         # callbacks and finalisers would run at collector-chosen instants);
         # garbage is collected between runs, with no simulation active
         gc.disable()
+        _cur[0] = self
+        _install_bw_sleep_probe()
         lp = bool(self.knobs.get('line_preempt'))
         if lp:
             from . import linepre
@@ -916,6 +944,7 @@ class World:
         try:
             self.sim.run(self._driver)
         finally:
+            _cur[0] = None
             if lp:
                 linepre.disable()
             simstd.reset_between_runs()
